@@ -60,7 +60,7 @@ CLAIMS["C09"] = ("bounded symbolic execution (symx, real arithmetic) of the real
 CLAIMS["C02"] = ("bounded symbolic execution (symx) of the real PDFXRefStream.get_pos/get_objids, PDFDocument.getobj/_getobj_objstm/read_xref_from/find_xref and PDFXRef.load",
          "For all /Index ranges (symbolic starts), field widths, ALL entry bytes and every object number the cross-reference stream decoding equals ISO 7.5.8; for every revision table (each object absent/direct/"
          "in an object stream, per revision) getobj returns the newest definition with caching on or off; for every Prev/XRefStm pointer graph (incl. cycles) sections load newest -> XRefStm -> Prev, each once; "
-         "classic tables and startxref are read for every subsection partition, EOL form and buffer size (enumeration harnesses). The body-scan fallback is not claimed.",
+         "classic tables and startxref are read for every subsection partition, EOL form and buffer size (enumeration harnesses); a single-revision classic-table file whose startxref offset or table is unreadable (17 damages x 3 line-end styles x caching) is recovered by the body scan: every object, the catalog, the in-use numbers and the text. Tables that are readable but point to wrong offsets are not recovered by the library and not claimed.",
          "4.C02")
 CLAIMS["C17"] = ("bounded symbolic execution (symx) of the real NumberTree, PageLabels.labels, format_int_roman/alpha, lookup_name/get_dest, get_outlines and decode_text",
          "Number trees with symbolic keys flatten sorted; format_int_roman equals the reference for every symbolic value 1..3999 (digits discovered by forking); page labels for every range/style/St/prefix "
